@@ -10,6 +10,7 @@ import atexit
 import errno
 import importlib
 import importlib._bootstrap_external as _be
+import json
 import os
 import shutil
 import sys
@@ -62,15 +63,26 @@ def source(name, version, imports, lazy, pad):
 
 
 class World:
-    def __init__(self, scn):
+    def __init__(self, scn, root=None):
+        self.imports = scn["forest"]["imports"]
+        self.lazy = scn["forest"]["lazy"]
+        self.torn = False
+        if root is not None and os.path.exists(os.path.join(root, "_world.json")):
+            # re-opened by a real subprocess (cross-validation mode): state travels in a file
+            self.root = root
+            with open(os.path.join(root, "_world.json")) as f:
+                st = json.load(f)
+            self.clock, self.versions, self.pad = st["clock"], st["versions"], st["pad"]
+            self.broken = set(st["broken"])
+            self.stamps = {m: {tuple(x) for x in v} for m, v in st["stamps"].items()}
+            self.torn = st["torn"]
+            return
         _COUNTER[0] += 1
-        self.root = os.path.join(_BASE, f"h{os.getpid()}_{_COUNTER[0]}")
+        self.root = root or os.path.join(_BASE, f"h{os.getpid()}_{_COUNTER[0]}")
         os.makedirs(self.root)
         self.clock = 1_600_000_000
         self.versions = {m: 1 for m in MODULES}
         self.pad = {m: 0 for m in MODULES}
-        self.imports = scn["forest"]["imports"]
-        self.lazy = scn["forest"]["lazy"]
         self.broken = set()
         self.stamps = {m: set() for m in MODULES}  # (size, mtime) pairs already used per module
         for m in MODULES:
@@ -91,6 +103,11 @@ class World:
             t += 1
         self.stamps[m].add((len(src), t & 0xFFFFFFFF))
         os.utime(p, (t, t))
+
+    def save(self):
+        with open(os.path.join(self.root, "_world.json"), "w") as f:
+            json.dump({"clock": self.clock, "versions": self.versions, "pad": self.pad, "broken": sorted(self.broken),
+                       "stamps": {m: sorted(v) for m, v in self.stamps.items()}, "torn": self.torn}, f)
 
     def destroy(self):
         shutil.rmtree(self.root, ignore_errors=True)
@@ -153,6 +170,7 @@ def run_one(world, run, bytecode, stats):
     importlib.invalidate_caches()
     st = seams.install(seams.SeamState(plan={(f["site"], f["k"]): f["exc"] for f in run.get("faults", [])}))
     problems = []
+    observations = []
     hooks = []
     mgrs = {}
     disk = run.get("disk", {})
@@ -269,6 +287,7 @@ def run_one(world, run, bytecode, stats):
                     cur = world.versions[name]
                     rec = {"module": name, "run_hooks": [(h["names"], h["checker"]) for h in hooks if h["active"]],
                            "instrumented": inst, "checkers_seen": got, "version_run": ver, "version_source": cur}
+                    observations.append([name, inst, got, ver])
                     if ver != cur or (callable(getattr(mod, "which", None)) and mod.which() != cur):
                         problems.append(dict(rec, what="stale code: module executed code of an older source version"))
                     if inst != exp_inst:
@@ -329,6 +348,7 @@ def run_one(world, run, bytecode, stats):
         problems.append({"what": "a finder of the hook remains on sys.meta_path after every hook was uninstalled",
                          "on_meta_path": remaining})
     stats.inc("runs_crashed" if crashed else "runs_completed")
+    world.last_observations = observations
     return problems
 
 
@@ -341,13 +361,20 @@ def pyc_census(world, stats):
             stats.inc("pyc_plain_seen")
 
 
-def run_history(scn, stats):
+def run_history(scn, stats, real_process=False):
+    """Soft-restart mode (default) or, for cross-validation, every run in a fresh real subprocess."""
     world = World(scn)
-    world.torn = False
-    out = []
+    out, obs = [], []
     try:
         for ri, run in enumerate(scn["runs"]):
-            probs = run_one(world, run, scn.get("bytecode", True), stats)
+            if real_process:
+                world.save()
+                probs, ob = _run_in_subprocess(scn, world.root, ri, stats)
+                world = World(scn, world.root)
+            else:
+                probs = run_one(world, run, scn.get("bytecode", True), stats)
+                ob = world.last_observations
+            obs.append(ob)
             for p in probs:
                 out.append(dict(p, run=ri))
             pyc_census(world, stats)
@@ -356,4 +383,23 @@ def run_history(scn, stats):
     finally:
         soft_restart(world)
         world.destroy()
-    return out
+    return out, obs
+
+
+def _run_in_subprocess(scn, root, ri, stats):
+    import subprocess
+
+    spec = os.path.join(root, "_run.json")
+    with open(spec, "w") as f:
+        json.dump({"scn": scn, "run_index": ri}, f)
+    env = dict(os.environ)
+    env.pop("PYTHONDONTWRITEBYTECODE", None)
+    p = subprocess.run([sys.executable, "-m", "sim.hookrun", root], env=env, capture_output=True, text=True, timeout=300,
+                       cwd=os.path.dirname(os.path.dirname(os.path.abspath(__file__))))
+    line = [ln for ln in p.stdout.splitlines() if ln.startswith("HOOKRUN ")]
+    if p.returncode != 0 or not line:
+        raise HarnessError(f"real-process run failed: rc={p.returncode} {p.stdout[-300:]} {p.stderr[-800:]}")
+    r = json.loads(line[0][8:])
+    stats.inc("real_process_runs")
+    stats.merge(r["stats"])
+    return r["problems"], r["observations"]
